@@ -396,7 +396,7 @@ func (m *vMachine) genOp(rt *rapid.T, i int) vOp {
 			return m.c19XGenOp(rt, i, k)
 		}
 	}
-	if m.prop == "C02" && cfg.Liq == nil && cfg.Seed%3 == 0 { // a third of the generated worlds
+	if (m.prop == "C02" || m.prop == "C01") && cfg.Liq == nil && cfg.Seed%3 == 0 { // a third of the generated worlds
 		// emergency shutdown of an app, the blocks that carry it through its cool-off, and redemptions afterwards
 		if op, ok := m.c02EsmGenOp(rt, i); ok {
 			return op
@@ -874,10 +874,18 @@ func (m *vMachine) c01Invariants(i int, op vOp) {
 				ids[v.Id] = true
 			}
 		}
+		// an executed emergency shutdown empties the app's stable-mint vault and takes it off the product's list; the
+		// (never deleted) record itself stays
+		shut := false
+		if st, ok := c.App.EsmKeeper.GetESMStatus(c.Ctx, m.apps[p.App]); ok && st.StableVaultRedemptionStatus {
+			shut = true
+		}
 		for _, sv := range svs {
 			if sv.ExtendedPairVaultID == p.ID && sv.AppId == m.apps[p.App] {
 				sumIn, sumOut = sumIn.Add(sv.AmountIn), sumOut.Add(sv.AmountOut)
-				ids[sv.Id] = true
+				if !(shut && sv.AmountIn.IsZero() && sv.AmountOut.IsZero()) {
+					ids[sv.Id] = true
+				}
 			}
 		}
 		if !found {
